@@ -37,11 +37,15 @@ class GVObj:
 
 
 def gv_variants(g):
+    """global_vars as a mapping, as an object with instance attributes, with CLASS attributes (e.g. a settings class or
+    module-like object) and with properties"""
     d = {n: v for n, v in GVS[g - 1]}
     o = GVObj()
     for n, v in d.items():
         setattr(o, n, v)
-    return [('dict', d), ('object', o)]
+    cls_obj = type('GVClassAttrs', (), dict(d))()
+    prop_obj = type('GVProps', (), {n: property(lambda self, _v=v: _v) for n, v in d.items()})()
+    return [('dict', d), ('object', o), ('object with class attributes', cls_obj), ('object with properties', prop_obj)]
 
 
 def batch(job):
@@ -125,9 +129,9 @@ def through_config(_):
 
         class PTask(Task):
             class Meta:
-                parameters = [Parameter('p'), Parameter('lst', default=None)]
+                parameters = [Parameter('p'), Parameter('lst', default=None), Parameter('ps', dtype=str, default='-')]
 
-            def run(self, p, lst) -> dict:
+            def run(self, p, lst, ps) -> dict:
                 return {'p': p}
         PTask.__module__ = 'vgen_c11'
         mod.PTask = PTask
@@ -135,7 +139,7 @@ def through_config(_):
         (root / 'sub').mkdir(parents=True)
         (root / 'sub' / 'other.json').write_text(json.dumps({'q': '{A}-q', 'tasks': []}))
         main = root / 'main.json'
-        main.write_text(json.dumps({'uses': '{DIR}/other.json as o', 'tasks': ['vgen_c11.PTask'], 'p': 'pre{A}/{UNDEF}/{B}',
+        main.write_text(json.dumps({'uses': '{DIR}/other.json as o', 'tasks': ['vgen_c11.PTask'], 'p': 'pre{A}/{UNDEF}/{B}', 'ps': '{A}-typed',
                                     'lst': ['{A}', {'in': '{B}{B}'}],
                                     'obj': {'class': 'vgen_c11.Holder', 'args': ['{A}/file'], 'kwargs': {'opt': ['{B}']}}}))
         gv = {'A': 'a-val', 'B': 'b-val', 'DIR': str(root / 'sub')}
@@ -163,6 +167,10 @@ def through_config(_):
         prm = t.params._parameters['p']
         if prm.value_repr() != "'pre{A}/{UNDEF}/{B}'":
             bad.append(('config:param-repr', f'persistence representation of the parameter is {prm.value_repr()!r}'))
+        prs = t.params._parameters['ps']     # a parameter declared dtype=str: substituted value, placeholder representation
+        if str(t.params['ps']) != 'a-val-typed' or prs.value_repr() != "'{A}-typed'":
+            bad.append(('config:param-repr', f'a dtype=str parameter has value {t.params["ps"]!r} and persistence representation '
+                                             f"{prs.value_repr()!r}, expected 'a-val-typed' / \"'{{A}}-typed'\""))
         c2 = copy.deepcopy(cfg)
         if str(c2['p']) != 'prea-val/{UNDEF}/b-val' or repr(c2['p']) != "'pre{A}/{UNDEF}/{B}'":
             bad.append(('copy:config', f'after deepcopy(config) the value is {str(c2["p"])!r} with representation {c2["p"]!r}'))
@@ -219,6 +227,18 @@ def through_config(_):
                 bad.append(('config:context-mutated', f"building a config changed the caller's Context object: "
                                                       f'{(cobj.data, cobj.for_namespaces)!r}'))
                 break
+        # a LIST of contexts one of which uses another context through a path with a placeholder
+        (root / 'lc2.json').write_text(json.dumps({'from_lc2': '{B}-lc2'}))
+        (root / 'lc1.json').write_text(json.dumps({'from_lc1': 1, 'uses': ['{ROOT}/lc2.json']}))
+        try:
+            cl = Config(root / 'data', name='ctxlist', data={'tasks': []}, global_vars=gv2,
+                        context=[{'plain': '{A}-plain'}, str(root / 'lc1.json')])
+            if str(cl.get('from_lc2')) != 'b-val-lc2' or str(cl.get('plain')) != 'a-val-plain':
+                bad.append(('config:context-list', f"a list of contexts (one using another through a placeholder path): values "
+                                                   f"{cl.get('from_lc2')!r}, {cl.get('plain')!r}"))
+        except Exception as e:  # noqa
+            bad.append(('config:context-list', f'a list of contexts one of which `uses` a path with a placeholder failed: '
+                                               f'{type(e).__name__}: {e}'))
         # the same config under other global_vars: same persistence key, other value
         cfg_b = Config(root / 'data', main, global_vars={**gv, 'A': 'other'})
         if cfg_b.chain()['p'].name_for_persistence != t.name_for_persistence:
